@@ -11,5 +11,6 @@ def register(T):
     T.SPECS += [
         T.FnSpec(F, "TagList.render", "TagList_render", group="c13_tl_render"),
         T.FnSpec(F, "HTMLTextDocument.render", "HTMLTextDocument_render", group="c13_render"),
+        T.FnSpec(F, "HTMLDependency.serialize_to_script_json", "HTMLDependency_serialize", group="c13_serialize"),
     ]
-    T.ARITY.update({"TagList_render": 1, "HTMLTextDocument_render": 3})
+    T.ARITY.update({"TagList_render": 1, "HTMLTextDocument_render": 3, "HTMLDependency_serialize": 2})
